@@ -224,6 +224,7 @@ func (st *noState) build(graphTs uint64) string {
 	}
 	sortCNodes(cn)
 	st.node = kernel.VerifC29NewNode(fakeNetworkId, st.epoch, cn, genesis, st.store)
+	st.node.IdForNetwork = fakeHash("the-validating-node")
 	st.node.VerifC29InitChains()
 	st.node.VerifSetGraphTimestamp(graphTs)
 	return fmt.Sprintf("world %d %d | %d%s | %d%s | %d%s", st.epoch, graphTs, len(st.recs), recs.String(), nk, keys.String(), ns, stored.String())
@@ -431,7 +432,7 @@ func init() {
 					lines = append(lines, fmt.Sprintf("remove %s %d %d %d %s", p, tsr, fin(), base, mut))
 				}
 			}
-			return lines
+			return clkWrap(r, lines, map[string]int{"pledge": 2, "cancel": 1, "accept": 3, "remove": 2})
 		},
 		Exec: execNodeOps,
 	})
@@ -440,8 +441,11 @@ func init() {
 func noHour(epoch, ts uint64) uint64 { return (ts - epoch) / c25Hour % 24 }
 
 func execNodeOps(state *State, line string) Result {
-	t := strings.Fields(line)
+	c, t := parseClk(strings.Fields(line))
 	res := Result{Tags: []string{t[0]}}
+	if c.on {
+		res.Tags = append(res.Tags, fmt.Sprintf("clk:own%d-ts0%d", b2i(c.own), b2i(c.ts0)))
+	}
 	fail := func(key, desc string) {
 		if res.PropKey == "" {
 			res.PropKey, res.PropDesc = "C29:"+key, desc
@@ -503,16 +507,38 @@ func execNodeOps(state *State, line string) Result {
 		in := acc[1 : len(acc)-1]
 		return in[(int((ts-st.epoch)/c25OneDay)+op)%len(in)].IdForNetwork == p
 	}
-	decide := func(f func() error) (string, bool) {
+	once := func(f func() error) string {
 		var err error
 		_, pn, _ := Catch(func() string { err = f(); return "" })
 		if pn {
-			return "panic", false
+			return "panic"
 		}
 		if err != nil {
-			return "reject", false
+			return "reject"
 		}
-		return "accept", true
+		return "accept"
+	}
+	// decide runs a validator as the node `self` (the snapshot's node when c.own) under the mocked
+	// clock; for a snapshot whose time must not depend on the clock it runs it again under another
+	// clock (another epoch day and hour window) and compares. clockFree = the validator reads the
+	// clock for nothing else at this instant.
+	decide := func(snapNode crypto.Hash, clockFree bool, f func() error) (string, bool) {
+		st.node.IdForNetwork = fakeHash("the-validating-node") // some node other than the snapshot's
+		if c.on && c.own {
+			st.node.IdForNetwork = snapNode
+		}
+		defer func() { st.node.IdForNetwork = fakeHash("the-validating-node") }()
+		var d string
+		withClock(c.on, c.clock, func() { d = once(f) })
+		if c.on && !(c.own && c.ts0) && clockFree {
+			var d2 string
+			withClock(true, c.otherClock(), func() { d2 = once(f) })
+			if d2 != d {
+				fail("decision-depends-on-local-clock", fmt.Sprintf("the same timestamped snapshot is decided %s with the local clock at %d and %s at %d",
+					d, c.clock, d2, c.otherClock()))
+			}
+		}
+		return d, d == "accept"
 	}
 	out, panicked, _ := Catch(func() string {
 		switch t[0] {
@@ -529,7 +555,8 @@ func execNodeOps(state *State, line string) Result {
 			res.LeanIn = st.build(u64(t[2]))
 			return "ok"
 		case "pledge":
-			ts, fin := u64(t[2]), t[3] == "1"
+			tsTok, fin := u64(t[2]), t[3] == "1"
+			ts, sts := c.eff(tsTok), c.snapTs(tsTok)
 			p, ok := resolve(t[1], common.TransactionTypeNodePledge, ts)
 			var cand *common.VersionedTransaction
 			if t[4] == "rec" {
@@ -545,7 +572,7 @@ func execNodeOps(state *State, line string) Result {
 				amount := new(big.Int).Add(integerToBig(common.KernelNodePledgeAmount), big.NewInt(int64(u64(t[6]))-1000))
 				cand = noTx(common.OutputTypeNodePledge, fakeHash(fmt.Sprintf("pledge-fund-%d", label)), integerFromBig(amount), extra, nil)
 			}
-			res.LeanIn = fmt.Sprintf("pledge %s %d %d %s", p, ts, b2i(fin), noFields(cand))
+			res.LeanIn = c.prefix() + fmt.Sprintf("pledge %s %d %d %s", p, tsTok, b2i(fin), noFields(cand))
 			if !ok {
 				return "panic"
 			}
@@ -553,8 +580,8 @@ func execNodeOps(state *State, line string) Result {
 				res.LeanIn = "skip"
 				return "bad-op" // the kernel dispatches by type: not a pledge snapshot
 			}
-			snap := &common.Snapshot{NodeId: p, Timestamp: ts}
-			d, acc := decide(func() error { return st.node.VerifValidateNodePledgeSnapshot(snap, cand, fin) })
+			snap := &common.Snapshot{NodeId: p, Timestamp: sts}
+			d, acc := decide(p, true, func() error { return st.node.VerifValidateNodePledgeSnapshot(snap, cand, fin) })
 			if acc {
 				res.Tags = append(res.Tags, "pledge:accept")
 				if integerToBig(cand.Outputs[0].Amount).Cmp(integerToBig(common.KernelNodePledgeAmount)) != 0 {
@@ -585,13 +612,14 @@ func execNodeOps(state *State, line string) Result {
 			}
 			return d
 		case "cancel":
-			ts, fin := u64(t[1]), t[2] == "1"
+			tsTok, fin := u64(t[1]), t[2] == "1"
+			ts, sts := c.eff(tsTok), c.snapTs(tsTok)
 			rec := st.recs[int(u64(t[4]))%len(st.recs)]
 			x := noNodeOf(rec.node)
 			cand := noTx(common.OutputTypeNodeCancel, rec.tx.PayloadHash(), common.NewInteger(100), noExtra(rec.node), []*common.Address{&x.payee})
-			res.LeanIn = fmt.Sprintf("cancel %d %d %s", ts, b2i(fin), noFields(cand))
-			snap := &common.Snapshot{NodeId: x.id, Timestamp: ts}
-			d, acc := decide(func() error { return st.node.VerifValidateNodeCancelSnapshot(snap, cand, fin) })
+			res.LeanIn = c.prefix() + fmt.Sprintf("cancel %d %d %s", tsTok, b2i(fin), noFields(cand))
+			snap := &common.Snapshot{NodeId: x.id, Timestamp: sts}
+			d, acc := decide(x.id, true, func() error { return st.node.VerifValidateNodeCancelSnapshot(snap, cand, fin) })
 			if acc {
 				res.Tags = append(res.Tags, "cancel:accept")
 				pn := st.node.PledgingNode(ts)
@@ -606,15 +634,23 @@ func execNodeOps(state *State, line string) Result {
 			}
 			return d
 		case "accept":
-			round, ts, fin, base := u64(t[2]), u64(t[3]), t[4] == "1", u64(t[5])
+			round, tsTok, fin, base := u64(t[2]), u64(t[3]), t[4] == "1", u64(t[5])
+			ts, sts := c.eff(tsTok), c.snapTs(tsTok)
 			id, _ := resolve(t[1], 0, ts)
-			exists, hasInfo, hasState, info := st.node.VerifC29ChainIdentity(id)
-			future := ts > uint64(time.Now().UnixNano())+uint64(time.Minute)+config.SnapshotRoundGap
-			var cand, canon *common.VersionedTransaction
-			if exists {
-				Catch(func() string { cand, _ = st.node.VerifC29BuildNodeAcceptTransaction(id, base, fin); return "" })
-				Catch(func() string { canon, _ = st.node.VerifC29BuildNodeAcceptTransaction(id, ts, fin); return "" })
+			if c.on && c.own { // getOrCreateChain treats the node's own id specially
+				st.node.IdForNetwork = id
 			}
+			var exists, hasInfo, hasState bool
+			var info kernel.CNode
+			future := ts > c.now()+uint64(time.Minute)+config.SnapshotRoundGap
+			var cand, canon *common.VersionedTransaction
+			withClock(c.on, c.clock, func() { // the chain identity and the "future" test read the clock
+				exists, hasInfo, hasState, info = st.node.VerifC29ChainIdentity(id)
+				if exists {
+					Catch(func() string { cand, _ = st.node.VerifC29BuildNodeAcceptTransaction(id, base, fin); return "" })
+					Catch(func() string { canon, _ = st.node.VerifC29BuildNodeAcceptTransaction(id, ts, fin); return "" })
+				}
+			})
 			mut := t[6:]
 			if cand == nil {
 				input := fakeHash("no-pledge")
@@ -634,10 +670,13 @@ func execNodeOps(state *State, line string) Result {
 			if hasInfo {
 				infoS = fmt.Sprintf("%s %s", info.IdForNetwork, info.Transaction)
 			}
-			res.LeanIn = fmt.Sprintf("accept %d %s %d %d %d %d %d %s %s", b2i(exists), infoS, b2i(hasState), round, ts, b2i(future),
+			res.LeanIn = c.prefix() + fmt.Sprintf("accept %d %s %d %d %d %d %d %s %s", b2i(exists), infoS, b2i(hasState), round, tsTok, b2i(future),
 				b2i(fin), canonRest, noFields(cand))
-			snap := &common.Snapshot{NodeId: id, Timestamp: ts, RoundNumber: round}
-			d, acc := decide(func() error { return st.node.VerifC29ValidateNodeAcceptSnapshot(snap, cand, fin) })
+			snap := &common.Snapshot{NodeId: id, Timestamp: sts, RoundNumber: round}
+			// the accept validator also compares the time with the clock ("in the future"): the
+			// two-clock comparison applies when both clocks are well past the time used
+			clockFree := ts+uint64(10*time.Minute) < c.clock
+			d, acc := decide(id, clockFree, func() error { return st.node.VerifC29ValidateNodeAcceptSnapshot(snap, cand, fin) })
 			if acc {
 				res.Tags = append(res.Tags, "accept:accept")
 				pn := st.node.PledgingNode(ts)
@@ -663,7 +702,8 @@ func execNodeOps(state *State, line string) Result {
 			}
 			return d
 		case "remove":
-			ts, fin, base := u64(t[2]), t[3] == "1", u64(t[4])
+			tsTok, fin, base := u64(t[2]), t[3] == "1", u64(t[4])
+			ts, sts := c.eff(tsTok), c.snapTs(tsTok)
 			p, ok := resolve(t[1], common.TransactionTypeNodeRemove, ts)
 			mut := t[5:]
 			var cand *common.VersionedTransaction
@@ -697,12 +737,12 @@ func execNodeOps(state *State, line string) Result {
 			if canon != nil {
 				canonRest = noRest(canon)
 			}
-			res.LeanIn = fmt.Sprintf("remove %s %d %d %s %s", p, ts, b2i(fin), canonRest, noFields(cand))
+			res.LeanIn = c.prefix() + fmt.Sprintf("remove %s %d %d %s %s", p, tsTok, b2i(fin), canonRest, noFields(cand))
 			if !ok {
 				return "panic"
 			}
-			snap := &common.Snapshot{NodeId: p, Timestamp: ts}
-			d, acc := decide(func() error { return st.node.VerifValidateNodeRemoveSnapshot(snap, cand, fin) })
+			snap := &common.Snapshot{NodeId: p, Timestamp: sts}
+			d, acc := decide(p, true, func() error { return st.node.VerifValidateNodeRemoveSnapshot(snap, cand, fin) })
 			if acc {
 				res.Tags = append(res.Tags, "remove:accept")
 				if !electedIs(common.TransactionTypeNodeRemove, ts, p) {
